@@ -331,7 +331,9 @@ pub fn c03_scenarios(tier: Tier) -> Vec<Scenario> {
         }
     }
     // sequential differential: every reachable state x every suspension point
-    for (layout, ms, prefill) in [(2u8, 1usize, 1usize), (3, 2, 2), (0, 2, 1)] {
+    // hook layouts: async only, sync + async, none, sync only (a sync hook
+    // cannot be dropped half-way, but it can panic)
+    for (layout, ms, prefill) in [(2u8, 1usize, 1usize), (3, 2, 2), (0, 2, 1), (1, 2, 1)] {
         let mut c = PoolCfg::simple(ms);
         c.create_menu = SUSPENDING.to_vec();
         c.recycle_menu = SUSPENDING.to_vec();
@@ -679,6 +681,10 @@ pub fn c11_scenarios(tier: Tier) -> Vec<Scenario> {
     let mut sc = ConcScenario::new(PoolCfg::simple(2), vec![vec![Op::Retain], vec![Op::Resize(1)], vec![get(), Op::Release]], base);
     sc.prefill = 2;
     v.push(conc_paid("retain-vs-resize/ms2", "retain racing with a shrink and a get", b.p, 0, sc));
+    // max_size at rest after resize() and close() raced (a closed pool reports 0)
+    let mut sc = ConcScenario::new(PoolCfg::simple(2), vec![vec![Op::Resize(1), Op::Resize(3)], vec![Op::Close, Op::Status]], base);
+    sc.prefill = 2;
+    v.push(conc("resize-vs-close/ms2", "two resizes racing with close(); status() at rest", b.p, 0, sc));
     v.extend(seq_core(tier, base));
     let mut c = PoolCfg::simple(2);
     c.create_menu = vec![Out::Ok, Out::Err, Out::PendOk];
